@@ -6,6 +6,7 @@ import hashlib
 import json
 import os
 import random
+import threading
 import time
 import traceback
 
@@ -60,6 +61,7 @@ class Ctx:
         self._cur_every = int(self.params.get("current_every", 1))
         self.notes = {}
         self.inconclusive = []
+        self._lock = threading.RLock()   # monitors are also called from worker / user threads
 
     # ---- numpy generator derived from the python one (so one seed drives both)
     def np_rng(self):
@@ -98,10 +100,12 @@ class Ctx:
             self.samples.append(json.loads(canon(case)))
 
     def count(self, monitor, n=1):
-        self.monitors[monitor] += n
+        with self._lock:
+            self.monitors[monitor] += n
 
     def observe(self, name, value, n=1):
-        self.observed[name][str(value)] += n
+        with self._lock:
+            self.observed[name][str(value)] += n
 
     def note(self, name, value):
         self.notes[name] = value
@@ -114,13 +118,14 @@ class Ctx:
     # ---- failures
     def fail(self, key, detail, case=None, monitor=None):
         """Record a monitor failure.  `key` is the mechanism key used by the known-findings classifier."""
-        self.fail_counts[key] += 1
-        if self.fail_counts[key] <= self.MAX_FAILS_PER_KEY:
-            rec = {"key": key, "detail": detail, "monitor": monitor,
-                   "case": json.loads(canon(case if case is not None else self.current)),
-                   "shard": self.shard, "seed": self.seed, "tier": self.tier}
-            self._fails_f.write(canon(rec) + "\n")
-            self._fails_f.flush()
+        with self._lock:
+            self.fail_counts[key] += 1
+            if self.fail_counts[key] <= self.MAX_FAILS_PER_KEY:
+                rec = {"key": key, "detail": detail, "monitor": monitor,
+                       "case": json.loads(canon(case if case is not None else self.current)),
+                       "shard": self.shard, "seed": self.seed, "tier": self.tier}
+                self._fails_f.write(canon(rec) + "\n")
+                self._fails_f.flush()
 
     def fail_exc(self, key, exc, case=None, monitor=None):
         self.fail(key, {"exception": type(exc).__name__, "message": str(exc)[:500],
